@@ -623,18 +623,18 @@ func exploreCluster(t *testing.T, secName string, n, ncids int, budget time.Dura
 }
 
 func TestClusterView3(t *testing.T) {
-	exploreCluster(t, "cluster-3-peers-1-cid", 3, 1, 5*time.Minute)
+	exploreCluster(t, "cluster-3-peers-1-cid", 3, 1, within(3*time.Minute))
 }
 
 func TestClusterView2(t *testing.T) {
-	exploreCluster(t, "cluster-2-peers-2-cids", 2, 2, 5*time.Minute)
+	exploreCluster(t, "cluster-2-peers-2-cids", 2, 2, within(3*time.Minute))
 }
 
 func TestClusterView3Pairs(t *testing.T) {
 	if !ev.Thorough() {
 		t.Skip("thorough tier only")
 	}
-	exploreCluster(t, "cluster-3-peers-2-cids", 3, 2, 10*time.Minute)
+	exploreCluster(t, "cluster-3-peers-2-cids", 3, 2, within(8*time.Minute))
 }
 
 func TestZClusterNotes(t *testing.T) {
